@@ -241,6 +241,13 @@ def b_list(c):
         c.ret(("lit", kind if kind in ("list", "tuple") else "list", (), c.site[:3]), pure=False)
         return
     x = c.args[0]
+    if c.callee in ("builtin:list", "builtin:tuple") and len(c.args) == 1 and not c.kwargs and is_lit(x) and x[1] in ("list", "tuple"):
+        from .walker import _deep_events, _root_term
+
+        if x[1] == "tuple" or not any(ev[0] in ("store", "del", "mutcall") and _root_term(ev[2]) == x for ev in _deep_events(c.s.events)):
+            # tuple([a, b]) / list((a, b)): a display of the same items
+            c.ret(("lit", c.callee[8:], x[2], c.site[:3] if c.callee == "builtin:list" else None), pure=False)
+            return
     inner_ok = is_call(x, ("method:keys", "method:values", "method:items"))
     if not inner_ok:
         c.need_type(x, CONTAINERS | {"generator"}, "TypeError", "%s() of a value that may not be iterable" % c.callee[8:])
@@ -260,6 +267,16 @@ def b_dict(c):
         items = tuple((C(n), v) for n, v in c.kwargs)
         c.ret(("lit", "dict", items, c.site[:3]), pure=False)
         return
+    x = c.args[0]
+    if x[0] == "global" and x[1].startswith("const:"):
+        x = c.w.eng.const_literal(x[1][6:]) or x
+    if is_lit(x) and x[1] in ("tuple", "list") and all(is_lit(p) and p[1] in ("tuple", "list") and len(p[2]) == 2 for p in x[2]):
+        # dict(((k1, v1), (k2, v2)), **kw): the display itself
+        items = tuple((p[2][0], p[2][1]) for p in x[2]) + tuple((C(n), v) for n, v in c.kwargs)
+        kt = [c.types(k) for k, _v in items]
+        if all(t is not None and t <= HASHABLE for t in kt):
+            c.ret(("lit", "dict", items, c.site[:3]), pure=False)
+            return
     c.need_type(c.args[0], frozenset(["dict", "list", "tuple"]), "TypeError", "dict() of a non-mapping")
     c.rz("ValueError", "dict() of a sequence whose items are not pairs", [("nottype", c.args[0], frozenset(["dict"]))])
     c.ret(None, pure=False)
@@ -548,6 +565,10 @@ def _builtin_over_generator(w, e, name, args, s):
     """list / tuple / set / dict / sorted / next / any / all applied to a generator object of a
     repository generator function: the generator is run in place"""
     gen = args[0]
+    if name in ("list", "tuple") and len(args) == 1:
+        exact = w._collect_exact(gen, s, e)
+        if exact is not None:
+            return [(s2, k2, ("lit", name, p2[2], (e.lineno, e.col_offset, name) if name == "list" else None) if k2 == "val" else p2) for s2, k2, p2 in exact]
     if name in ("list", "tuple", "set", "frozenset", "dict", "sorted") and len(args) == 1:
         kind = {"list": "list", "tuple": "list", "sorted": "list", "set": "set", "frozenset": "set", "dict": "dict"}[name]
         outs = []
@@ -1476,8 +1497,11 @@ def m_read(c):
     h = c.recv
     if is_call(h, "builtin:open"):
         mode = h[2][1] if len(h[2]) > 1 else dict(h[3]).get("mode", C("r"))
-    rt = "bytes" if mode is not None and is_const(mode) and "b" in str(mode[2]) else "str"
-    c.ret(None, ("type", c.term, frozenset([rt])), pure=False, extra_event=("read", c.site, c.recv))
+    if mode is not None and is_const(mode):
+        rt = frozenset(["bytes" if "b" in str(mode[2]) else "str"])
+    else:
+        rt = frozenset(["bytes", "str"])  # a handle opened elsewhere: either kind
+    c.ret(None, ("type", c.term, rt), pure=False, extra_event=("read", c.site, c.recv))
 
 
 @method("write", "writelines")
